@@ -110,7 +110,7 @@ impl Baton {
                 if quiet {
                     break;
                 }
-                let (g, to) = cv.wait_timeout(st, Duration::from_secs(20)).unwrap();
+                let (g, to) = cv.wait_timeout(st, Duration::from_secs(120)).unwrap();
                 st = g;
                 if to.timed_out() {
                     st.abort = true;
